@@ -5,17 +5,21 @@
    to print 0, see DESIGN / the C23 report).  The model keys are printed for the conformance comparison. *)
 EXTENDS KeySem, Json, IOUtils
 Progs == ndJsonDeserialize(IOEnv.PROGS)
-VARIABLE i
-Init == i = 0
-Step == i < Len(Progs) /\ i' = i + 1
-Done == i = Len(Progs) /\ UNCHANGED i
+VARIABLES i, res
+\* everything about program number k, computed once
+Analyse(p) == LET S == Space(p) r == Radix(p)
+                  keys == [t \in S |-> Key(p, r, t)]
+                  inj == \A c \in 0..(NClasses(p) - 1) :
+                            LET Sc == {t \in S : t[1] = c} IN Cardinality({keys[t] : t \in Sc}) = Cardinality(Sc)
+                  names == \A t \in S : Invert(keys[t], r[t[1]], 1) = KeyVals(p, t)
+              IN [name |-> p.name, exprparam |-> HasExprParam(p), inj |-> inj, names |-> names, n |-> Cardinality(S),
+                  keys |-> {<<t[1], t[2], keys[t]>> : t \in S}]
+Init == i = 0 /\ res = [name |-> "", exprparam |-> FALSE, inj |-> TRUE, names |-> TRUE, n |-> 0, keys |-> {}]
+Step == i < Len(Progs) /\ i' = i + 1 /\ res' = Analyse(Progs[i + 1])
+Done == i = Len(Progs) /\ UNCHANGED <<i, res>>
 Next == Step \/ Done
-Spec == Init /\ [][Next]_i
-Cur == Progs[i]
-Injective == i > 0 => KeyInjective(Cur)
-Names == (i > 0 /\ ~HasExprParam(Cur)) => PrintNames(Cur)
-Emit == i > 0 => PrintT(<<"VH", ToJson([name |-> Cur.name, exprparam |-> HasExprParam(Cur), names |-> PrintNames(Cur),
-                                          n |-> Cardinality(Space(Cur)),
-                                          keys |-> LET r == Radix(Cur) S == Space(Cur) IN
-                                                   {<<t[1], t[2], Key(Cur, r, t)>> : t \in S}])>>)
+Spec == Init /\ [][Next]_<<i, res>>
+Injective == res.inj                                  \* KeySem.KeyInjective of the current program
+Names == ~res.exprparam => res.names                  \* KeySem.PrintNames of the current program
+Emit == i > 0 => PrintT(<<"VH", ToJson(res)>>)
 =============================================================================
